@@ -3,8 +3,8 @@ from core import Case
 from . import rtgen as R
 
 ID = "C05"
-AUDIT_IMPORTS = ["PortusModel.Props.C05History"]
-THEOREMS = ['Portus.C05.install_before_use', 'Portus.C05.install_before_use_sf', 'Portus.C05.install_before_use_trace', 'Portus.C05.installedOk_sound', 'Portus.C05.runHistSf_cons', 'Portus.C05.ready_installs_all', 'Portus.C05.first_create_installs_before_handler', 'Portus.C05.no_other_installs', 'Portus.C05.addresses_stay_registered', 'Portus.C05.install_before_use_partial', 'Portus.Rt.runUser_spec', 'Portus.Rt.step_ok']
+AUDIT_IMPORTS = ["PortusModel.Props.C05History", "PortusModel.Props.C05Loop"]
+THEOREMS = ['Portus.C05.loop_tx_eq_hist_tx', 'Portus.C05.loop_history_install_before_use', 'Portus.C05.install_before_use', 'Portus.C05.install_before_use_sf', 'Portus.C05.install_before_use_trace', 'Portus.C05.installedOk_sound', 'Portus.C05.runHistSf_cons', 'Portus.C05.ready_installs_all', 'Portus.C05.first_create_installs_before_handler', 'Portus.C05.no_other_installs', 'Portus.C05.addresses_stay_registered', 'Portus.C05.install_before_use_partial', 'Portus.Rt.runUser_spec', 'Portus.Rt.step_ok']
 SPEC_IS_ORACLE = True  # the compared trace is what the property speaks about and is determined by the history
 KEEP = {"RX", "TX IN", "TX CP", "TXFAIL", "NF", "RES"}
 RELATION = 'send trace (installs and change-program commands with destination and program) interleaved with RX / new_flow markers'
@@ -18,7 +18,8 @@ LEVEL_TEXT = ("Machine-checked proof (Lean 4) for EVERY history of messages, con
               "earlier and after that address's last ready. Proved by an invariant (every registered address holds the complete batch "
               "since its last ready) over the per-step theorems: ready => complete install batch exactly once; first contact by create "
               "=> the batch before the handler runs; nothing else installs; commands only to the sender's own address. The history is "
-              "the sequence of decoded messages (the framing of datagrams into that sequence is C08). Model tied to the code by "
+              "the sequence of decoded messages; loop_tx_eq_hist_tx shows the receive loop (Backend.next framing, receive failures, stop "
+              "requests) transmits exactly what the history of the messages it yields transmits. Model tied to the code by "
               "differential runs on send traces; the Lean trace oracle checkC05 is evaluated on the real trace.")
 LEVEL_NOTE = 'Trusts: Lean kernel; correspondence sampling; policy discipline (no sends from Drop, callbacks do not panic).'
 TECHNIQUE = 'Lean 4 history-level theorem (invariant over all message histories) + differential correspondence on send traces + Lean trace oracle'
